@@ -3,3 +3,5 @@ import TdfModel.Dec
 import TdfModel.Cp1252
 import TdfModel.Str
 import TdfModel.Sexp
+import TdfModel.Rle
+import TdfModel.Blocks
